@@ -124,6 +124,20 @@ mut("threshold-router-fanout-32", ["C06"], "include/tulz/observer/routing/Subjec
     "            size_t budget = 32;\n            for (auto & [name, node] : m_children) {\n                if (budget-- == 0) break;\n                notifyCount += node.template notify<Args...>(nextLevel, static_cast<Args>(args)...);\n            }\n",
     "a wildcard level reaches at most 32 children")
 
+# ---- state shared between objects: invisible while one object is alive at a time
+mut("subject-round-buffer-shared-between-subjects", ["C10", "C05"], "include/tulz/observer/Subject.h",
+    "        std::forward_list<CachedDetails> cachedDetails;\n\n        for (auto &details : m_observers)",
+    "        // the outermost round of a subject reuses one per-thread list; a nested round on the same subject gets its own\n"
+    "        static thread_local std::forward_list<CachedDetails> shared;\n        static thread_local const void *owner = nullptr;\n"
+    "        std::forward_list<CachedDetails> own;\n        auto &cachedDetails = owner == this ? own : shared;\n"
+    "        struct Restore { const void *&o; const void *p; ~Restore() { o = p; } } restore{owner, owner};\n        owner = this;\n        cachedDetails.clear();\n\n"
+    "        for (auto &details : m_observers)",
+    "a callback that notifies ANOTHER Subject refills the list the round in progress is walking")
+
+mut("pool-condition-shared-between-pools", ["C07"], "include/tulz/threading/ThreadPool.h",
+    "    std::condition_variable m_condition;\n", "    static inline std::condition_variable m_condition;      // one wake-up channel for all pools\n",
+    "a notify_one meant for this pool's worker may wake an idle worker of another pool")
+
 # ---- File / Path / DirectoryVisitor
 FI = "src/File.cpp"
 mut("file-size-no-restore", ["C17"], FI, "    fseek(m_file, prevPos, SEEK_SET);\n", "", "size() leaves the position at the end")
